@@ -84,7 +84,7 @@ impl FixtureDatabase {
                         self.collect_names_from_expr(target, &mut temp_names);
                     }
                     for name in temp_names {
-                        local_vars.insert(name, line);
+                        Self::bind_local(local_vars, name, line);
                     }
                 }
                 Stmt::AnnAssign(ann_assign) => {
@@ -93,7 +93,7 @@ impl FixtureDatabase {
                     let mut temp_names = HashSet::new();
                     self.collect_names_from_expr(&ann_assign.target, &mut temp_names);
                     for name in temp_names {
-                        local_vars.insert(name, line);
+                        Self::bind_local(local_vars, name, line);
                     }
                 }
                 Stmt::AugAssign(aug_assign) => {
@@ -102,7 +102,7 @@ impl FixtureDatabase {
                     let mut temp_names = HashSet::new();
                     self.collect_names_from_expr(&aug_assign.target, &mut temp_names);
                     for name in temp_names {
-                        local_vars.insert(name, line);
+                        Self::bind_local(local_vars, name, line);
                     }
                 }
                 Stmt::For(for_stmt) => {
@@ -111,7 +111,7 @@ impl FixtureDatabase {
                     let mut temp_names = HashSet::new();
                     self.collect_names_from_expr(&for_stmt.target, &mut temp_names);
                     for name in temp_names {
-                        local_vars.insert(name, line);
+                        Self::bind_local(local_vars, name, line);
                     }
                     self.collect_local_variables(&for_stmt.body, line_index, local_vars);
                     self.collect_local_variables(&for_stmt.orelse, line_index, local_vars);
@@ -122,7 +122,7 @@ impl FixtureDatabase {
                     let mut temp_names = HashSet::new();
                     self.collect_names_from_expr(&for_stmt.target, &mut temp_names);
                     for name in temp_names {
-                        local_vars.insert(name, line);
+                        Self::bind_local(local_vars, name, line);
                     }
                     self.collect_local_variables(&for_stmt.body, line_index, local_vars);
                     self.collect_local_variables(&for_stmt.orelse, line_index, local_vars);
@@ -143,7 +143,7 @@ impl FixtureDatabase {
                             let mut temp_names = HashSet::new();
                             self.collect_names_from_expr(optional_vars, &mut temp_names);
                             for name in temp_names {
-                                local_vars.insert(name, line);
+                                Self::bind_local(local_vars, name, line);
                             }
                         }
                     }
@@ -157,7 +157,7 @@ impl FixtureDatabase {
                             let mut temp_names = HashSet::new();
                             self.collect_names_from_expr(optional_vars, &mut temp_names);
                             for name in temp_names {
-                                local_vars.insert(name, line);
+                                Self::bind_local(local_vars, name, line);
                             }
                         }
                     }
@@ -184,7 +184,7 @@ impl FixtureDatabase {
                         let mut captured = HashSet::new();
                         Self::collect_pattern_names(&case.pattern, &mut captured);
                         for name in captured {
-                            local_vars.insert(name, line);
+                            Self::bind_local(local_vars, name, line);
                         }
                         self.collect_local_variables(&case.body, line_index, local_vars);
                     }
@@ -196,28 +196,36 @@ impl FixtureDatabase {
                             Some(asname) => asname.as_str(),
                             None => alias.name.as_str().split('.').next().unwrap_or(""),
                         };
-                        local_vars.insert(bound.to_string(), stmt_line);
+                        Self::bind_local(local_vars, bound.to_string(), stmt_line);
                     }
                 }
                 Stmt::ImportFrom(import) => {
                     for alias in &import.names {
                         let bound = alias.asname.as_ref().unwrap_or(&alias.name);
-                        local_vars.insert(bound.to_string(), stmt_line);
+                        Self::bind_local(local_vars, bound.to_string(), stmt_line);
                     }
                 }
                 // nested functions and classes are local names of the enclosing function
                 Stmt::FunctionDef(def) => {
-                    local_vars.insert(def.name.to_string(), stmt_line);
+                    Self::bind_local(local_vars, def.name.to_string(), stmt_line);
                 }
                 Stmt::AsyncFunctionDef(def) => {
-                    local_vars.insert(def.name.to_string(), stmt_line);
+                    Self::bind_local(local_vars, def.name.to_string(), stmt_line);
                 }
                 Stmt::ClassDef(def) => {
-                    local_vars.insert(def.name.to_string(), stmt_line);
+                    Self::bind_local(local_vars, def.name.to_string(), stmt_line);
                 }
                 _ => {}
             }
         }
+    }
+
+    /// Record a local binding; a name bound several times counts from its first binding on.
+    fn bind_local(local_vars: &mut HashMap<String, usize>, name: String, line: usize) {
+        local_vars
+            .entry(name)
+            .and_modify(|first| *first = (*first).min(line))
+            .or_insert(line);
     }
 
     /// Names bound by `except ... as name` and by the statements of the handlers.
@@ -231,7 +239,7 @@ impl FixtureDatabase {
             let ExceptHandler::ExceptHandler(h) = handler;
             if let Some(name) = &h.name {
                 let line = self.get_line_from_offset(h.range.start().to_usize(), line_index);
-                local_vars.insert(name.to_string(), line);
+                Self::bind_local(local_vars, name.to_string(), line);
             }
             self.collect_local_variables(&h.body, line_index, local_vars);
         }
@@ -308,7 +316,7 @@ impl FixtureDatabase {
         match expr {
             Expr::NamedExpr(named) => {
                 if let Expr::Name(name) = named.target.as_ref() {
-                    local_vars.insert(name.id.to_string(), line);
+                    Self::bind_local(local_vars, name.id.to_string(), line);
                 }
                 Self::collect_walrus_targets(&named.value, line, local_vars);
             }
